@@ -430,6 +430,46 @@ func c15(run *ev.Run, tier string) {
 			}
 		}
 	}
+	// names a format does not accept, or accepts only in another spelling: asking for the
+	// file name first leaves the outcome of packaging as it is without asking
+	{
+		ndir := newWorkDir("c15-names")
+		src := filepath.Join(ndir, "p.txt")
+		_ = os.WriteFile(src, []byte("p\n"), 0o644)
+		for _, name := range []string{"my pkg", "-lead", ".dot", "pkg\u00e9", "UPPER_case", "a/b", "plus+plus", "at@sign"} {
+			s := &gen.Spec{Name: name, Arch: "amd64", Version: "1.0.0", Maintainer: "N <n@example.com>", Description: "d", MTime: 1500000000}
+			s.RPM.BuildHost = "verif-host"
+			s.Contents = []*gen.Content{{Src: src, Dst: "/opt/names/p.txt"}}
+			y := s.YAML()
+			for _, f := range formats {
+				run.Case("name-asked-before-packaging-unusual-name|"+name+"|"+f, true)
+				var outs [2]buildResult
+				for k := 0; k < 2; k++ {
+					cfg, err := parseYAML(y, nil)
+					if err != nil {
+						outs[k].Err = err
+						continue
+					}
+					info, err := infoFor(&cfg, f)
+					if err != nil {
+						outs[k].Err = err
+						continue
+					}
+					if k == 1 {
+						if pk, err := nfpm.Get(f); err == nil {
+							_ = pk.ConventionalFileName(info)
+						}
+					}
+					outs[k] = packageInfo(f, info)
+				}
+				failed := func(r buildResult) bool { return r.Err != nil || r.Panic != "" }
+				if failed(outs[0]) != failed(outs[1]) || (!failed(outs[0]) && !bytes.Equal(outs[0].Bytes, outs[1].Bytes)) {
+					run.Violate("C15/"+f+"/asking-for-the-file-name-alters-the-package/unusual-name", map[string]any{"name": name, "packaging_alone": fmt.Sprint(outs[0].Err), "after_asking_for_the_name": fmt.Sprint(outs[1].Err), "len_alone": len(outs[0].Bytes), "len_after": len(outs[1].Bytes)})
+				}
+			}
+		}
+		removeWorkDir(ndir)
+	}
 	run.Set("cli_runs", cli)
 	run.Assume("file names do not carry the epoch in any of the five naming conventions; the expected name is composed from the decoded metadata with the epoch stripped")
 }
